@@ -1,6 +1,7 @@
 import Secp.Proofs.Decode
 import Secp.Proofs.WideReduceP
-import Secp.Proofs.BytesTies
+import Secp.Proofs.BytesTiesP
+import Secp.Proofs.BytesTiesPH
 /-!
 # C12 — the base-field layer computes exact, canonical arithmetic in F_p
 
